@@ -670,7 +670,11 @@ class CodeGenMapper(Mapper[ImplementedResult, Never, [CodeGenState]]):
 
         self.rec(expr._container, state)
 
-        assert expr in state.results
+        if expr not in state.results:
+            # results are recorded for the container's own entries; *expr*
+            # may be a tagged copy of one of them
+            state.results[expr] = state.results[expr._container[expr.name]]
+
         return state.results[expr]
 
     def map_loopy_call(self, expr: LoopyCall, state: CodeGenState) -> None:
